@@ -548,6 +548,45 @@ func runC11(p *Program, r *Report) {
 					if g, _ := varOf(in.Map); g != nil && isPrismPkg(g.G.Pkg.Pkg) {
 						acc[g] = append(acc[g], globalAccess{f, in, "elem-store"})
 					}
+				case ssa.CallInstruction:
+					// the address of a package-level variable handed to a call: sync/atomic
+					// accesses are loads and stores like any other (they order nothing with
+					// respect to OTHER variables' publication by a Once); any other callee
+					// may write through the pointer
+					cc := in.Common()
+					cf := staticCallee(in)
+					args := cc.Args
+					for ai, a := range args {
+						g, direct := varOf(a)
+						if g == nil || !direct || !isPrismPkg(g.G.Pkg.Pkg) {
+							continue
+						}
+						if _, isPtr := a.Type().Underlying().(*types.Pointer); !isPtr {
+							continue
+						}
+						if pt, ok := a.Type().Underlying().(*types.Pointer); ok {
+							if n, ok := pt.Elem().(*types.Named); ok && n.Obj().Pkg() != nil && n.Obj().Pkg().Path() == "sync" {
+								continue // Once/Mutex/WaitGroup receivers: rule O2 handles Once usage
+							}
+						}
+						kind := "elem-store"
+						if cf != nil && cf.Pkg != nil && cf.Pkg.Pkg.Path() == "sync/atomic" && ai == 0 {
+							if strings.HasPrefix(cf.Name(), "Load") {
+								kind = "atomic-load"
+							} else {
+								kind = "atomic-store"
+							}
+						} else if cf != nil && cf.Signature.Recv() != nil && ai == 0 && cf.Pkg != nil && cf.Pkg.Pkg.Path() == "sync/atomic" {
+							if cf.Name() == "Load" {
+								kind = "atomic-load"
+							} else {
+								kind = "atomic-store"
+							}
+						}
+						if instr, ok := in.(ssa.Instruction); ok {
+							acc[g] = append(acc[g], globalAccess{f, instr, kind})
+						}
+					}
 				case *ssa.UnOp:
 					if in.Op == token.MUL {
 						if g, direct := varOf(in.X); g != nil && direct && isPrismPkg(g.G.Pkg.Pkg) {
@@ -645,9 +684,80 @@ func runC11(p *Program, r *Report) {
 		}
 	}
 
+	// the table path: functions that pass through a Once or read a variable written after
+	// initialisation, and everything they call
+	tablePath := map[*ssa.Function]bool{}
+	{
+		var work []*ssa.Function
+		mark := func(f *ssa.Function) {
+			if f != nil && !tablePath[f] {
+				tablePath[f] = true
+				work = append(work, f)
+			}
+		}
+		for _, s := range doSites {
+			mark(s.In)
+			mark(s.Closure)
+		}
+		for len(work) > 0 {
+			f := work[len(work)-1]
+			work = work[:len(work)-1]
+			for _, b := range f.Blocks {
+				for _, in := range b.Instrs {
+					if c, ok := in.(ssa.CallInstruction); ok {
+						if cf := staticCallee(c); cf != nil && isPrismFn(cf) {
+							mark(cf)
+						}
+					}
+					if mc, ok := in.(*ssa.MakeClosure); ok {
+						if cf, ok := mc.Fn.(*ssa.Function); ok {
+							mark(cf)
+						}
+					}
+				}
+			}
+		}
+	}
+
 	nLazy := 0
 	for _, g := range globals {
 		key := strings.TrimPrefix(g.String(), ModPath+"/")
+		// a variable touched only through sync/atomic has no data race of its own; what
+		// it must not do is steer the table path: its value depends on the schedule
+		atomicOnly, late := len(acc[g]) > 0, false
+		for _, a := range acc[g] {
+			if a.Kind != "atomic-load" && a.Kind != "atomic-store" {
+				atomicOnly = false
+			}
+			if a.Kind == "atomic-store" && !ctx[a.Fn].initOnly() {
+				late = true
+			}
+		}
+		if atomicOnly && late {
+			r.Hold("C11.O2", key, p.Pos(g.Pos()), "accessed only through sync/atomic (no data race on it)")
+			n := 0
+			for _, a := range acc[g] {
+				if a.Kind != "atomic-load" {
+					continue
+				}
+				n++
+				lkey := fmt.Sprintf("%s atomic load#%d in %s", key, n, shortFn(a.Fn))
+				r.Check(!tablePath[a.Fn], "C11.O1", lkey, p.InstrPos(a.Instr),
+					"read outside the functions that build or consult the lazily built tables: it cannot steer their results",
+					fmt.Sprintf("%s consults %s, whose value depends on how far another goroutine has got, on the path that builds or reads a lazily built table: the result follows the schedule", shortFn(a.Fn), g.Name()))
+			}
+			continue
+		}
+		if !atomicOnly {
+			for i := range acc[g] {
+				switch acc[g][i].Kind {
+				case "atomic-load":
+					acc[g][i].Kind = "load"
+				case "atomic-store":
+					acc[g][i].Kind = "store"
+				}
+			}
+		}
 		var lateStores []globalAccess
 		for _, a := range acc[g] {
 			if (a.Kind == "store" || a.Kind == "elem-store") && !ctx[a.Fn].initOnly() {
